@@ -10,8 +10,16 @@ and the two wiring functions `_load_fail_safe` / `_build_traffic_filter_from_env
 the real `lunar_interceptor/__init__.py` (the package itself cannot be imported: it needs yarl,
 aiohttp, requests and performs a handshake at import).
 
-Stand-ins (ours, minimal): modules `yarl` (class URL) and `requests` (Session.request = scripted
-transport, ConnectionError, ConnectTimeout, Response, models.CaseInsensitiveDict).
+The hooks are created and installed by the package's own wiring: `_initialize_hooks()` of the real
+`__init__.py` -> real `Interceptor(...).set_hooks()` (interceptor/interceptor.py) -> every hook of the
+real LUNAR_HOOKS (hooks/__init__.py: aiohttp, requests, tornado) on one shared FailSafe/TrafficFilter,
+handshake through the first hook, `init_hooks()`.  A `call lib=<requests|aiohttp|tornado>` then enters
+through the library's public entry point (Session.request / ClientSession._request /
+AsyncHTTPClient.fetch).
+Stand-ins (ours, minimal): modules `yarl` (class URL), `multidict`, and the three client libraries
+`requests`, `aiohttp`, `tornado` with a scripted transport and EXCEPTION HIERARCHIES that mirror the
+real ones (names and base classes); a gateway-leg failure can be of every class of the hierarchy
+(`gw=exc:<lib>.<Class>`).
 Patched names: `time` in fail_safe (virtual clock, ticks of 1/8 s), `gethostbyname` in
 traffic_filter (DNS table of the case; entries `real:`/`unicode` call the real
 socket.gethostbyname, `ip:` returns the address, `gaierror`/absent raise socket.gaierror exactly
@@ -220,6 +228,8 @@ class AppDirect(Exception):
 
 
 class CaseInsensitiveDict(dict):
+    """requests.models.CaseInsensitiveDict / multidict.CIMultiDictProxy as far as the hooks use them."""
+
     def __init__(self, d=None):
         super().__init__()
         for k, v in (d or {}).items():
@@ -228,78 +238,248 @@ class CaseInsensitiveDict(dict):
     def __contains__(self, k):
         return dict.__contains__(self, k.lower())
 
+    def __getitem__(self, k):
+        return dict.__getitem__(self, k.lower())
+
     def get(self, k, default=None):
         return dict.get(self, k.lower(), default)
 
+    def pop(self, k, *a):
+        return dict.pop(self, k.lower(), *a)
+
     def copy(self):
-        return CaseInsensitiveDict(self)
+        return type(self)(self)
+
+
+class HTTPHeaders(CaseInsensitiveDict):
+    """tornado.httputil.HTTPHeaders as far as the hook uses it."""
+
+    def get_list(self, k):
+        return [dict.__getitem__(self, k.lower())] if k in self else []
 
 
 class Response:
-    def __init__(self, leg, headers=None):
+    def __init__(self, leg, headers=None, cls=CaseInsensitiveDict):
         self.leg = leg
-        self.status_code = 200
-        self.content = b"{}"
-        self.headers = CaseInsensitiveDict(headers)
+        self.status_code = self.status = self.code = 200
+        self.content = self.body = b'{"managed": false}'
+        self.headers = cls(headers)
+        self.error = None
+        self._cache = {}
 
+    async def json(self):
+        return {"managed": False}
 
-class RequestsConnectionError(IOError):
-    pass
+    async def __aenter__(self):
+        return self
 
-
-class RequestsConnectTimeout(RequestsConnectionError):
-    pass
+    async def __aexit__(self, *a):
+        return False
 
 
 ERRHDR_KEYS = {"errhdr:": "x-lunar-error", "errHDR:": "X-Lunar-Error", "ERRHDR:": "X-LUNAR-ERROR"}
+LIBS = ("requests", "aiohttp", "tornado")
 
 
-def gw_word_ok(g):
+def _exc_tree(spec):
+    """spec: list of (name, (base names or classes)) in definition order -> dict name -> class."""
+    d = {}
+    for name, bases in spec:
+        d[name] = type(name, tuple(d[b] if isinstance(b, str) else b for b in bases), {"__init__": lambda self, *a, **k: Exception.__init__(self, *a)})
+    return d
+
+
+import ssl as _ssl
+
+# exception hierarchies as in requests 2.x / aiohttp 3.x / tornado 6.x (names and base classes only)
+EXC = {
+    "requests": _exc_tree([
+        ("RequestException", (IOError,)), ("HTTPError", ("RequestException",)),
+        ("ConnectionError", ("RequestException",)), ("ProxyError", ("ConnectionError",)),
+        ("SSLError", ("ConnectionError",)), ("Timeout", ("RequestException",)),
+        ("ConnectTimeout", ("ConnectionError", "Timeout")), ("ReadTimeout", ("Timeout",)),
+        ("TooManyRedirects", ("RequestException",)), ("ChunkedEncodingError", ("RequestException",)),
+        ("ContentDecodingError", ("RequestException",)), ("InvalidURL", ("RequestException", ValueError)),
+        ("MissingSchema", ("RequestException", ValueError))]),
+    "aiohttp": _exc_tree([
+        ("ClientError", (Exception,)), ("ClientResponseError", ("ClientError",)),
+        ("ContentTypeError", ("ClientResponseError",)), ("TooManyRedirects", ("ClientResponseError",)),
+        ("ClientConnectionError", ("ClientError",)), ("ClientOSError", ("ClientConnectionError", OSError)),
+        ("ClientConnectorError", ("ClientOSError",)), ("ClientProxyConnectionError", ("ClientConnectorError",)),
+        ("ClientSSLError", ("ClientConnectorError",)), ("ClientConnectorSSLError", ("ClientSSLError", _ssl.SSLError)),
+        ("ClientConnectorCertificateError", ("ClientSSLError", _ssl.CertificateError)),
+        ("ServerConnectionError", ("ClientConnectionError",)), ("ServerDisconnectedError", ("ServerConnectionError",)),
+        ("ServerTimeoutError", ("ServerConnectionError", TimeoutError)),
+        ("ServerFingerprintMismatch", ("ServerConnectionError",)), ("ClientPayloadError", ("ClientError",)),
+        ("InvalidURL", ("ClientError", ValueError)), ("TimeoutError", (TimeoutError,))]),
+    "tornado": _exc_tree([
+        ("HTTPClientError", (Exception,)), ("HTTPTimeoutError", ("HTTPClientError",)),
+        ("HTTPStreamClosedError", ("HTTPClientError",)), ("CurlError", ("HTTPClientError",)),
+        ("gaierror", (socket.gaierror,)), ("ValueError", (ValueError,))]),
+}
+# the words `connerr` / `connsub` per library: the registered base class / a descendant of it
+CONN_WORDS = {"requests": ("ConnectionError", "ConnectTimeout"), "aiohttp": ("ClientConnectionError", "ClientConnectorError"),
+              "tornado": ("HTTPClientError", "gaierror")}
+
+
+def gw_word_ok(g, lib="requests"):
+    if g.startswith("exc:"):
+        l, _, n = g[4:].partition(".")
+        return l == lib and n in EXC[lib]
     return g in ("ok", "connerr", "connsub", "errhdr", "appexc") or (g[:7] in ERRHDR_KEYS and len(g) > 7)
 
 
-class Session:
-    """Scripted transport: `request` is what the hook captures as `_original_function`."""
+class Script:
+    """What the gateway / the provider do on the current call, and which legs were contacted."""
+    gw = "ok"
+    direct = "ok"
+    legs = []
+    lib = "requests"
+    gw_exc = None
 
-    def __init__(self):
-        self.gw = "ok"
-        self.direct = "ok"
-        self.legs = []
+
+SCRIPT = Script()
+
+
+def transport(url, hdr_cls):
+    """The scripted network under all three stand-in libraries."""
+    u = url if isinstance(url, URL) else URL(url)
+    sc = SCRIPT
+    if u.host == PROXY_HOST and u.port == PROXY_PORT:
+        sc.legs.append("gw")
+        g = sc.gw
+        if g == "ok":
+            return Response("gw", None, hdr_cls)
+        if g == "errhdr":
+            return Response("gw", {"x-lunar-error": "2"}, hdr_cls)
+        if g[:7] in ERRHDR_KEYS:
+            return Response("gw", {ERRHDR_KEYS[g[:7]]: dec(g[7:])}, hdr_cls)
+        if g == "connerr":
+            sc.gw_exc = EXC[sc.lib][CONN_WORDS[sc.lib][0]]("gateway connection failed")
+        elif g == "connsub":
+            sc.gw_exc = EXC[sc.lib][CONN_WORDS[sc.lib][1]]("gateway connection failed")
+        elif g.startswith("exc:"):
+            sc.gw_exc = EXC[sc.lib][g[4:].partition(".")[2]]("failure on the gateway leg")
+        else:
+            sc.gw_exc = AppGw("application exception on the gateway leg")
+        raise sc.gw_exc
+    sc.legs.append("direct")
+    if sc.direct == "ok":
+        return Response("direct", None, hdr_cls)
+    raise AppDirect("application exception on the direct leg")
+
+
+class Session:
+    """requests.Session stand-in: `request` is what the hook captures as `_original_function`."""
 
     def request(self, method, url, *args, **kwargs):
-        u = URL(url)
-        if u.host == PROXY_HOST and u.port == PROXY_PORT:
-            self.legs.append("gw")
-            g = self.gw
-            if g == "ok":
-                return Response("gw")
-            if g == "connerr":
-                raise RequestsConnectionError("connection refused")
-            if g == "connsub":
-                raise RequestsConnectTimeout("connect timeout")
-            if g == "errhdr":
-                return Response("gw", {"x-lunar-error": "2"})
-            if g[:7] in ERRHDR_KEYS:
-                return Response("gw", {ERRHDR_KEYS[g[:7]]: dec(g[7:])})
-            raise AppGw("application exception on the gateway leg")
-        self.legs.append("direct")
-        if self.direct == "ok":
-            return Response("direct")
-        raise AppDirect("application exception on the direct leg")
+        return transport(url, CaseInsensitiveDict)
 
 
-def make_requests_module():
+class ClientSession:
+    """aiohttp.ClientSession stand-in."""
+
+    def _build_url(self, str_or_url):
+        return str_or_url if isinstance(str_or_url, URL) else URL(str_or_url)
+
+    async def _request(self, method, str_or_url, **kwargs):
+        return transport(str_or_url, CaseInsensitiveDict)
+
+    def get(self, url, **kwargs):          # handshake only
+        return Response("handshake")
+
+    async def __aenter__(self):
+        return self
+
+    async def __aexit__(self, *a):
+        return False
+
+
+class HTTPRequest:
+    def __init__(self, url, headers=None, follow_redirects=True, **kwargs):
+        self.url = url
+        self.headers = headers
+        self.follow_redirects = follow_redirects
+
+
+class AsyncHTTPClient:
+    """tornado.httpclient.AsyncHTTPClient stand-in (raise_error=True: failures are raised)."""
+
+    async def fetch(self, request, raise_error=True, **kwargs):
+        return transport(request.url if isinstance(request, HTTPRequest) else request, HTTPHeaders)
+
+
+PRISTINE = {"requests": Session.request, "aiohttp": ClientSession._request, "tornado": AsyncHTTPClient.fetch}
+
+
+def reset_libraries():
+    """Undo the previous case's init_hooks(): the stand-in libraries are pristine again."""
+    Session.request = PRISTINE["requests"]
+    ClientSession._request = PRISTINE["aiohttp"]
+    AsyncHTTPClient.fetch = PRISTINE["tornado"]
+
+
+def install_stand_in_libraries():
     m = types.ModuleType("requests")
     m.Session = Session
-    m.ConnectionError = RequestsConnectionError
-    m.ConnectTimeout = RequestsConnectTimeout
+    for n, c in EXC["requests"].items():
+        setattr(m, n, c)
+    m.exceptions = types.ModuleType("requests.exceptions")
+    for n, c in EXC["requests"].items():
+        setattr(m.exceptions, n, c)
     m.Response = Response
     m.models = types.ModuleType("requests.models")
     m.models.CaseInsensitiveDict = CaseInsensitiveDict
     m.sessions = types.ModuleType("requests.sessions")
     m.sessions.Session = Session
     m.get = lambda url, headers=None: Response("handshake")
-    return m
+    sys.modules["requests"] = m
+    sys.modules["requests.exceptions"] = m.exceptions
+    a = types.ModuleType("aiohttp")
+    a.__path__ = []
+    a.ClientSession = ClientSession
+    a.client = types.ModuleType("aiohttp.client")
+    a.client.ClientSession = ClientSession
+    a.client.ClientResponse = Response
+    a.typedefs = types.ModuleType("aiohttp.typedefs")
+    a.typedefs.StrOrURL = object
+    a.client_exceptions = types.ModuleType("aiohttp.client_exceptions")
+    for n, c in EXC["aiohttp"].items():
+        setattr(a.client_exceptions, n, c)
+        setattr(a, n, c)
+    for sub in ("client", "typedefs", "client_exceptions"):
+        sys.modules["aiohttp." + sub] = getattr(a, sub)
+    sys.modules["aiohttp"] = a
+    md = types.ModuleType("multidict")
+
+    class CIMultiDictProxy(CaseInsensitiveDict):
+        def __class_getitem__(cls, item):
+            return cls
+    md.CIMultiDictProxy = CIMultiDictProxy
+    sys.modules["multidict"] = md
+    t = types.ModuleType("tornado")
+    t.__path__ = []
+    t.httpclient = types.ModuleType("tornado.httpclient")
+    t.httpclient.AsyncHTTPClient = AsyncHTTPClient
+    t.httpclient.HTTPRequest = HTTPRequest
+    t.httpclient.HTTPResponse = Response
+    t.httpclient.HTTPClientError = EXC["tornado"]["HTTPClientError"]
+    t.httpclient.HTTPError = EXC["tornado"]["HTTPClientError"]
+    t.httputil = types.ModuleType("tornado.httputil")
+    t.httputil.HTTPHeaders = HTTPHeaders
+    sys.modules["tornado"] = t
+    sys.modules["tornado.httpclient"] = t.httpclient
+    sys.modules["tornado.httputil"] = t.httputil
+
+
+def run_sync(coro):
+    """Drive a coroutine that never really suspends (the scripted transports do not await)."""
+    try:
+        coro.send(None)
+    except StopIteration as e:
+        return e.value
+    coro.close()
+    raise RuntimeError("coroutine suspended")
 
 
 # ----------------------------------------------------------------------------- loading the real code
@@ -349,10 +529,23 @@ class Real:
 
 
 def load_real():
-    for n in ("lunar_interceptor", "lunar_interceptor.interceptor", "lunar_interceptor.interceptor.hooks"):
+    import asyncio
+    import warnings
+    warnings.simplefilter("ignore")
+    loop = asyncio.new_event_loop()
+    asyncio.set_event_loop(loop)          # Interceptor.set_hooks() runs the handshake on it
+    P = "lunar_interceptor.interceptor."
+    for n in ("lunar_interceptor", "lunar_interceptor.interceptor"):
         m = types.ModuleType(n)
         m.__path__ = []
         sys.modules[n] = m
+    # the hooks package is the REAL one (its __init__ lists LUNAR_HOOKS); executed below, once
+    # the modules it imports are in place
+    hooks_dir = os.path.join(SRC, "interceptor/hooks")
+    hspec = importlib.util.spec_from_file_location(P + "hooks", os.path.join(hooks_dir, "__init__.py"),
+                                                   submodule_search_locations=[hooks_dir])
+    hooks_pkg = importlib.util.module_from_spec(hspec)
+    sys.modules[P + "hooks"] = hooks_pkg
     try:
         import pkg_resources  # noqa: F401  (helpers.py needs it)
     except Exception:
@@ -365,11 +558,9 @@ def load_real():
     y = types.ModuleType("yarl")
     y.URL = URL
     sys.modules["yarl"] = y
-    sys.modules["requests"] = make_requests_module()
-    import warnings
-    warnings.simplefilter("ignore")
+    install_stand_in_libraries()
     r = Real()
-    P = "lunar_interceptor.interceptor."
+    r.loop = loop
     r.helpers = load_by_path(P + "helpers", "interceptor/helpers.py")
     r.const = load_by_path(P + "hooks.const", "interceptor/hooks/const.py")
     r.fail_safe = load_by_path(P + "fail_safe", "interceptor/fail_safe.py")
@@ -377,17 +568,20 @@ def load_real():
     r.configuration = load_by_path(P + "configuration", "interceptor/configuration.py")
     r.hook = load_by_path(P + "hooks.hook", "interceptor/hooks/hook.py")
     r.hooks_helpers = load_by_path(P + "hooks.helpers", "interceptor/hooks/helpers.py")
-    r.requests_hook = load_by_path(P + "hooks.requests", "interceptor/hooks/requests.py")
+    hspec.loader.exec_module(hooks_pkg)    # imports .aiohttp, .requests, .tornado over the stand-in libraries
+    r.hooks_pkg = hooks_pkg
+    r.singleton = load_by_path(P + "singleton", "interceptor/singleton.py")
+    r.interceptor = load_by_path(P + "interceptor", "interceptor/interceptor.py")
     r.fail_safe.time = fake_time
     r.traffic_filter.gethostbyname = fake_gethostbyname
     with open(os.path.join(SRC, "interceptor/configuration.py")) as f:
         r.configuration_code = compile(f.read(), os.path.join(SRC, "interceptor/configuration.py"), "exec")
-    # the two wiring functions of the real package __init__
+    # the wiring functions of the real package __init__
     with open(os.path.join(SRC, "__init__.py")) as f:
         tree = ast.parse(f.read())
-    want = ("_load_fail_safe", "_build_traffic_filter_from_env_vars")
+    want = ("_load_fail_safe", "_build_traffic_filter_from_env_vars", "_initialize_hooks")
     fns = [n for n in tree.body if isinstance(n, ast.FunctionDef) and n.name in want]
-    if len(fns) != 2:
+    if len(fns) != 3:
         raise RuntimeError("wiring functions not found in lunar_interceptor/__init__.py")
     r.wiring_code = compile(ast.Module(body=fns, type_ignores=[]), os.path.join(SRC, "__init__.py"), "exec")
     r.logger = logging.getLogger("verif-c19")
@@ -430,21 +624,35 @@ def interceptor_config(max_s, cool_s, allow, block):
 
 
 class Interceptor:
-    """The objects of one case, wired as lunar_interceptor/__init__.py wires them."""
+    """The objects of one case, created by the package's own `_initialize_hooks()`: the real
+    `Interceptor(...).set_hooks()` builds every supported hook of LUNAR_HOOKS (aiohttp, requests,
+    tornado) on ONE shared FailSafe / TrafficFilter, does the handshake through the first hook and
+    installs the hooks into the (stand-in) libraries."""
 
     def __init__(self, max_s, cool_s, allow, block):
         cfg = interceptor_config(max_s, cool_s, allow, block)
+        reset_libraries()
+        REAL.singleton.Singleton._instances.clear()
         ns = {"interceptor_config": cfg, "_LOGGER": REAL.logger, "FailSafe": REAL.fail_safe.FailSafe,
               "ProxyErrorException": REAL.fail_safe.ProxyErrorException,
-              "TrafficFilter": REAL.traffic_filter.TrafficFilter}
+              "TrafficFilter": REAL.traffic_filter.TrafficFilter, "Interceptor": REAL.interceptor.Interceptor}
         exec(REAL.wiring_code, ns)
-        self.fs = ns["_load_fail_safe"]()
-        self.tf = ns["_build_traffic_filter_from_env_vars"]()
-        hook = REAL.requests_hook.RequestsHook(logger=REAL.logger, fail_safe=self.fs, traffic_filter=self.tf,
-                                               lunar_proxy_configuration=cfg.connection_config)
-        # requests.Session.request is the scripted transport at this point (captured as _original_function)
-        self.request = hook._hook_module()
+        ns["_initialize_hooks"]()
+        inst = REAL.singleton.Singleton._instances[REAL.interceptor.Interceptor]
+        self.fs = inst._fail_safe
+        self.tf = inst._traffic_filter
+        self.hooks = inst._lunar_hooks
         self.session = Session()
+        self.aio = ClientSession()
+        self.tornado = AsyncHTTPClient()
+
+    def call(self, lib, url, kwargs):
+        """The application's call through the public entry point of the library."""
+        if lib == "requests":
+            return self.session.request("GET", url, **kwargs)
+        if lib == "aiohttp":
+            return run_sync(self.aio._request("GET", url, **kwargs))
+        return run_sync(self.tornado.fetch(url, **kwargs))
 
 
 # ----------------------------------------------------------------------------- executor
@@ -515,7 +723,8 @@ def exec_case(ops, out):
                 outs.append("ok")
             elif k == "call":
                 host, hd, gw, di = kv(w, "host"), kv(w, "hdr"), kv(w, "gw"), kv(w, "direct")
-                if ic is None or None in (host, hd, gw, di) or not gw_word_ok(gw) \
+                lib = kv(w, "lib") or "requests"
+                if ic is None or None in (host, hd, gw, di) or lib not in LIBS or not gw_word_ok(gw, lib) \
                         or di not in ("ok", "exc"):
                     outs.append("bad-op")
                     continue
@@ -526,24 +735,28 @@ def exec_case(ops, out):
                     continue
                 called = True
                 host = dec(host)
-                s = ic.session
-                s.gw, s.direct, s.legs = gw, di, []
+                s = SCRIPT
+                s.gw, s.direct, s.legs, s.lib, s.gw_exc = gw, di, [], lib, None
                 url = "http://%s/v1/x" % (("[%s]" % host) if ":" in host else host)
                 kwargs = {} if headers is None else {"headers": headers}
                 try:
-                    resp = ic.request(s, "GET", url, **kwargs)
+                    resp = ic.call(lib, url, kwargs)
                     res = "resp:" + resp.leg
                 except Exception as e:  # an exception reaching the application is an observable answer
-                    res = "raise:" + type(e).__name__
-                    if not isinstance(e, (AppGw, AppDirect)):
+                    if e is s.gw_exc:   # what the gateway leg raised (of whatever class) reached the application
+                        res = "raise:AppGw"
+                    else:
+                        res = "raise:" + type(e).__name__
+                    if not isinstance(e, (AppGw, AppDirect)) and e is not s.gw_exc:
                         raised = True
+                out.count("lib-" + lib)
                 outs.append("sent=%s res=%s cnt=%d ok=%d" % (",".join(s.legs) or "-", res, ic.fs._error_counter,
                                                              int(ic.fs._state_ok)))
                 if not ic.fs._state_ok:
                     tripped = True
                 if s.legs == ["direct"] and ic.fs._state_ok:
                     excluded = True
-                out.count("gw-" + gw.split(":")[0] if "gw" in s.legs else "not-routed")
+                out.count("gw-" + (gw if gw.startswith("exc:") else gw.split(":")[0]) if "gw" in s.legs else "not-routed")
                 if "gw" in s.legs and gw[:7] in ERRHDR_KEYS:
                     out.count("gw-errhdr-value-" + gw[7:])
                 out.count("result-" + res)
@@ -660,7 +873,7 @@ def q(name, ops):
 HDR_EVENTS = {"0": "errhdr:10", "1": "errhdr:77", "2": "errhdr:abc", "3": "errhdr:%e", "4": "errHDR:10", "5": "ERRHDR:3"}
 
 
-def seq_case(cid, maxe, cool, events, extra_cfg=""):
+def seq_case(cid, maxe, cool, events, extra_cfg="", lib=None, rnd=None):
     """events: list of event letters -> op lines"""
     ops = ["cfg max=%d cool=%d block=%%n allow=%%n t0=%d" % (maxe, cool, T0), "dns %s ip:%s" % (PUBLIC, PUBLIC_IP),
            "dns %s oserror:emfile" % FAULTY, "dns %s timeout" % FAULTY2]
@@ -698,10 +911,15 @@ def seq_case(cid, maxe, cool, events, extra_cfg=""):
             ops.append("call host=%s hdr=other gw=errhdr direct=exc" % FAULTY2)
         elif e == "D":
             ops.append("decide host=%s hdr=-" % FAULTY)
+        elif e == "Z":     # a failure of a random class of the library's exception hierarchy on the gateway leg
+            l = lib or "requests"
+            ops.append("call host=%s hdr=- gw=exc:%s.%s direct=ok" % (PUBLIC, l, rnd.pick(sorted(EXC[l]))))
         elif e == "O":     # header override on a private destination
             ops.append("call host=%s hdr=v:true gw=errhdr direct=ok" % PRIVATE_LIT)
         elif e == "N":     # header override refusing a public destination
             ops.append("call host=%s hdr=v:false gw=ok direct=ok" % PUBLIC)
+    if lib is not None:
+        ops = [o.replace("call host=", "call lib=%s host=" % lib, 1) if o.startswith("call host=") else o for o in ops]
     return cid, ops
 
 
@@ -769,7 +987,9 @@ def host_case(r, cid):
         if r.chance(25):   # the filter alone (shares the cache with the calls)
             ops.append("decide host=%s hdr=%s" % (enc(h), r.pick(HDRS)))
         else:
-            ops.append("call host=%s hdr=%s gw=%s direct=%s" % (enc(h), r.pick(HDRS), r.pick(["ok", "ok", "ok", "errhdr", "connerr", "appexc", r.pick(ERRHDR_WORDS)]),
+            lib = r.pick(LIBS)
+            ops.append("call lib=%s host=%s hdr=%s gw=%s direct=%s" % (lib, enc(h), r.pick(HDRS), r.pick(["ok", "ok", "ok", "errhdr", "connerr", "appexc", r.pick(ERRHDR_WORDS),
+                                                                                         "exc:%s.%s" % (lib, r.pick(sorted(EXC[lib])))]),
                                                                   r.pick(["ok", "ok", "ok", "exc"])))
         if r.chance(10):
             ops.append("adv d=%d" % r.pick([1, 7, 8, 9, 40, 80]))
@@ -781,9 +1001,9 @@ def rand_seq_case(r, cid):
     cool = r.pick([1, 2, 3, 4, 5, 1, 2, 3, 4, 5, 0])
     n = r.range(1, 12)
     # failure-heavy so that the breaker really opens, with advances around the boundary
-    letters = "SEEHHCABTTtUXY6ONRrD012345"
+    letters = "SEEHHCABTTtUXY6ONRrD012345ZZZ"
     ev = [letters[r.intn(len(letters))] for _ in range(n)]
-    return seq_case(cid, maxe, cool, ev)
+    return seq_case(cid, maxe, cool, ev, lib=r.pick(LIBS), rnd=r)
 
 
 def probe_case(r, cid, n):
@@ -839,6 +1059,22 @@ def generate(r, tier, budget, emit):
             ops += ["call host=%s hdr=- gw=%s direct=ok" % (PUBLIC, w)] * maxe
             ops += ["call host=%s hdr=- gw=ok direct=ok" % PUBLIC, "adv d=16", "call host=%s hdr=- gw=ok direct=ok" % PUBLIC]
             emit(nid("x"), ops)
+    # every class of every library's exception hierarchy on the gateway leg: enough of them in a row,
+    # a call inside the cool-down, a call after it
+    for lib in LIBS:
+        for cname in sorted(EXC[lib]):
+            for maxe in (1, 2, 3):
+                ops = ["cfg max=%d cool=2 block=%%n allow=%%n t0=%d" % (maxe, T0), "dns %s ip:%s" % (PUBLIC, PUBLIC_IP)]
+                ops += ["call lib=%s host=%s hdr=- gw=exc:%s.%s direct=ok" % (lib, PUBLIC, lib, cname)] * maxe
+                ops += ["call lib=%s host=%s hdr=- gw=ok direct=ok" % (lib, PUBLIC), "adv d=16",
+                        "call lib=%s host=%s hdr=- gw=ok direct=ok" % (lib, PUBLIC)]
+                emit(nid("c"), ops)
+    # the event alphabet exhaustively through the aiohttp and the tornado hook as well (shorter)
+    for lib in ("aiohttp", "tornado"):
+        for maxe in (1, 2, 3):
+            for cool in (1, 3):
+                for sq in enum_seqs("SEHABT", 3 if tier == "quick" else 5):
+                    emit(*seq_case(nid("a"), maxe, cool, sq, lib=lib))
     six = "SEHABT"   # success, gw error by exception, by header, application exception, bypassed destination, clock advance
     if tier == "quick":
         # exhaustive up to length 4 for the 16 settings
